@@ -43,7 +43,8 @@ OWNERS = [
     (r"konst/src/primitive", ["C12"]),
     (r"konst/src/parsing", ["C13", "C14", "C12", "C18"]),
     (r"konst/src/macros/parser_method\.rs", ["C18"]),
-    (r"konst/src/macros/parsing_macros\.rs", ["C19", "C12", "C18"]),
+    (r"konst/src/macros/parsing_macros\.rs", ["C19", "C12", "C13", "C14", "C18"]),
+    (r"konst/src/macros/bytes_fn_macros\.rs", ["C05", "C04", "C14"]),
     (r"konst_proc_macros", ["C18"]),
     (r"konst/src/(cmp|macros/(const_eq|const_ord|declare_cmp|impl_cmp|assert_cmp|polymorphism)|__for_cmp|polymorphism)", ["C16"]),
     (r"konst/src/macros/minmax_macros\.rs", ["C19"]),
@@ -156,12 +157,13 @@ def sh(cmd, **kw):
 
 def setup_worker(i):
     w = f"{BASE}/w{i}"
-    if os.path.exists(f"{w}/verif/check"):
+    if os.path.exists(f"{w}/verif/check") and not os.environ.get("MSWEEP_RESYNC"):
         return w
     os.makedirs(w, exist_ok=True)
-    sh(f"git -C /repo worktree add -f --detach {w}/repo HEAD")
-    sh(f"rsync -a --exclude .git --exclude target --exclude generated --exclude seeded --exclude mutants --exclude replays /verif/ {w}/verif/")
-    sh(f"grep -rlE '/repo' {w}/verif/check {w}/verif/lib {w}/verif/harness --include='*' | grep -v '/target/' | xargs sed -i 's#/repo#{w}/repo#g'")
+    if not os.path.exists(f"{w}/repo"):
+        sh(f"git -C /repo worktree add -f --detach {w}/repo HEAD")
+    sh(f"rsync -a --exclude .git --exclude target --exclude generated --exclude seeded --exclude mutants --exclude replays --exclude evidence /verif/ {w}/verif/")
+    sh(f"grep -rlE '/repo' {w}/verif/check {w}/verif/lib {w}/verif/harness --include='*' | grep -v '/target/' | xargs sed -i 's#\\([^0-9a-z]\\)/repo#\\1{w}/repo#g'")
     return w
 
 
@@ -193,6 +195,9 @@ def run_one(w, m, slow_ok=True):
         tried.append(c)
         if p.returncode == 1 and "VIOLATION" in p.stdout:
             res.update(status="killed", by=c, first=next((l.strip() for l in p.stdout.split("\n") if l.startswith("  ")), "")[:200])
+            break
+        if p.returncode == 124:
+            res.update(status="timeout", by=c)
             break
         if p.returncode == 2:
             # harness / generated programs no longer build: the mutant changed an API the harness relies on -> noticed, but as machinery
